@@ -37,6 +37,7 @@ def run(ck):
     mm = ck.repo.mod(MI)
     ck.rule("R1", "each range handler applies the interval operation of its own operator", floor=10)
     ck.rule("R2", "unknown inputs and unmodelled operators yield the full range; conditionals the union of their arms", floor=6)
+    _structural_rules(ck)
 
     table = em.const("_op_range_handler")
     ck.need(isinstance(table, ast.Dict), "_op_range_handler is not a dict literal")
@@ -174,3 +175,96 @@ def run(ck):
             ck.ob("R3", "%s:overflow-branch" % q.split(".")[-1], not bad or span_guard, mm.where(n),
                   "after `%s` the result is built from the operand bounds: %s; an operand strictly inside the interval can wrap "
                   "to a value outside it" % (norm(n.test), "; ".join(bad)))
+
+
+def _structural_rules(ck):
+    """R4: the structural cases of expr_range place each part at its own bit position.
+    compose: the shift applied to the range of part k is the start offset of part k - taken from ExprCompose.iter_args()
+             (the one provider of offsets), paired with the ranges by equal slices, or from a running sum that is a correct
+             exclusive prefix sum (sa/prefixsum); the result has the width of the whole expression
+    slice:   the range of the argument is shifted right by expr.start and masked to the slice's width"""
+    from sa.astutil import Resolver
+    from sa.prefixsum import accumulators
+    ck.rule("R4", "expr_range places each part of a composition at its own start offset; slices are shifted by their start", floor=3)
+    em = ck.repo.mod(ER)
+    fn = em.func("expr_range")
+    res = Resolver(fn)
+    # the provider itself
+    xm = ck.repo.mod("miasm/expression/expression.py")
+    it = xm.func("ExprCompose.iter_args")
+    accs = accumulators(it)
+    ck.need(accs, "ExprCompose.iter_args: running offset not found")
+    for a in accs:
+        yielded_before = any(when == "before" and isinstance(getattr(x, "_parent", None), ast.Tuple) for x, when in a["uses"])
+        ck.ob("R4", "ExprCompose.iter_args:exclusive-prefix-sum", a["ok"] and yielded_before, xm.where(a["stmt"]),
+              "iter_args does not yield the start offset of each argument: %s" % (a["why"] or "the offset is not yielded before the update"))
+    # compose branch of expr_range
+    branch = None
+    for n in ast.walk(fn):
+        if isinstance(n, ast.If) and norm(n.test) in ("expr.is_compose()", "isinstance(expr, ExprCompose)"):
+            branch = n
+    ck.need(branch is not None, "expr_range: compose branch not found")
+    body = ast.Module(body=branch.body, type_ignores=[])
+    for a in accumulators(body):
+        ck.ob("R4", "expr_range:compose:running-offset", a["ok"], em.where(a["stmt"]),
+              "the running offset `%s` of the compose branch is not the start offset of the current part: %s" % (a["acc"], a["why"]))
+    shifts = [n for n in walk_local(body) if isinstance(n, ast.BinOp) and isinstance(n.op, ast.LShift)]
+    ck.need(shifts, "expr_range: compose branch no longer shifts the sub ranges")
+    for sh in shifts:
+        amount = sh.right
+        ok = False
+        why = "`%s` is not an offset provided by iter_args()" % norm(amount)
+        if isinstance(amount, ast.Name):
+            # loop variable of a for over zip(offsets[k:], ranges[k:]) or over iter_args()
+            loop = getattr(sh, "_parent", None)
+            while loop is not None and not isinstance(loop, ast.For):
+                loop = getattr(loop, "_parent", None)
+            accs_here = [a for a in accumulators(body) if a["acc"] == amount.id]
+            if accs_here:
+                ok = all(a["ok"] for a in accs_here)
+                why = accs_here[0]["why"]
+            elif loop is not None:
+                tn = [x.id for x in ast.walk(loop.target) if isinstance(x, ast.Name)]
+                itx = loop.iter
+                if amount.id in tn and isinstance(itx, ast.Call) and dotted(itx.func) in ("zip", "izip") and len(itx.args) == len(tn):
+                    pos = tn.index(amount.id)
+                    srcs = []
+                    for a_ in itx.args:
+                        k = 0
+                        base = a_
+                        if isinstance(a_, ast.Subscript) and isinstance(a_.slice, ast.Slice) and a_.slice.upper is None:
+                            lo = a_.slice.lower
+                            k = lo.value if isinstance(lo, ast.Constant) else (0 if lo is None else None)
+                            base = a_.value
+                        srcs.append((res.expand_node(base), k))
+                    off_src, k_off = srcs[pos]
+                    from_iter = any(isinstance(c, ast.Call) and isinstance(c.func, ast.Attribute) and c.func.attr == "iter_args" for c in ast.walk(off_src))
+                    first_comp = isinstance(off_src, (ast.ListComp, ast.GeneratorExp)) and (
+                        (isinstance(off_src.elt, ast.Subscript) and norm(off_src.elt.slice) == "0") or
+                        (isinstance(off_src.generators[0].target, ast.Tuple) and norm(off_src.elt) == norm(off_src.generators[0].target.elts[0])))
+                    same_k = all(k == k_off for (_s, k) in srcs)
+                    ok = from_iter and first_comp and same_k
+                    if not from_iter:
+                        why = "the offsets `%s` do not come from iter_args()" % norm(off_src)[:60]
+                    elif not first_comp:
+                        why = "`%s` does not select the offset component of iter_args()" % norm(off_src)[:60]
+                    elif not same_k:
+                        why = "offsets and ranges are zipped from different start indices %s: every part is placed at a neighbour's offset" % [k for (_s, k) in srcs]
+                elif amount.id in tn and isinstance(itx, ast.Call) and isinstance(itx.func, ast.Attribute) and itx.func.attr == "iter_args":
+                    ok = tn.index(amount.id) == 0
+                    why = "the shift uses the argument, not the offset, of iter_args()"
+        ck.ob("R4", "expr_range:compose:shift-is-start-offset", ok, em.where(sh), "in `%s`: %s" % (norm(sh)[:70], why))
+    # slice branch
+    sl = None
+    for n in ast.walk(fn):
+        if isinstance(n, ast.If) and norm(n.test) in ("expr.is_slice()", "isinstance(expr, ExprSlice)"):
+            sl = n
+    ck.need(sl is not None, "expr_range: slice branch not found")
+    rets = [n for n in walk_local(ast.Module(body=sl.body, type_ignores=[])) if isinstance(n, ast.Return)]
+    ok = False
+    for r in rets:
+        v = res.expand_node(r.value)
+        for x in ast.walk(v):
+            if isinstance(x, ast.BinOp) and isinstance(x.op, ast.RShift) and norm(x.right) == "expr.start":
+                ok = True
+    ck.ob("R4", "expr_range:slice:shifted-by-start", ok, em.where(sl), "the range of a slice is not the argument's range shifted right by expr.start")
